@@ -217,8 +217,10 @@ public:
       }
       else
       {
-         // switch items
-         UnrefItem();
+         // switch items.  Note that we take our reference to the new item BEFORE we release the old item, because releasing the old item
+         // could otherwise destroy the new item (e.g. in cur = cur()->_next, when the old item holds the only other reference to the new item)
+         ConstRef oldItemRef;             // starts out empty
+         this->SwapContents(oldItemRef);  // (oldItemRef) now holds our reference (if any) to the old item, and will release it when it goes out of scope
          _item.SetPointerAndBits(item, BooleansToBitChord((item!=NULL), doRefCount));
          RefItem();
       }
